@@ -76,6 +76,39 @@ theorem kept_are_finite_inputs (ts : List τ) (rvs es : List ν) (uRv uErr : υ)
     simp only [keepMask, Bool.false_eq_true, if_false]
     rw [maskSel_all_true ts _ hzl]
 
+/-- **missing (masked) entries.**  An input whose entries may be missing (`none`: a masked epoch, velocity or uncertainty, as a table
+with blank cells gives) and where "finite" means "present and finite" - which is what turning masks into NaN before the filter
+achieves: with `clean = true` the object holds exactly the complete finite rows, and no held epoch, velocity or uncertainty is a
+missing one -/
+theorem missing_entries_dropped {T V : Type} (finT : T → Bool) (finV : V → Bool) (le : Option T → Option T → Bool)
+    (ts : List (Option T)) (rvs es : List (Option V)) (uRv uErr : υ) (tref : TRefArg (Option T)) (perm : List Nat)
+    (d : RV (Option T) (Option V) υ)
+    (h : init (fun o => o.elim false finT) (fun o => o.elim false finV) le ts rvs (.std es) uRv uErr true tref perm = .ok d) :
+    ∃ es', d.unc = .std es' ∧
+      (d.t.zip (d.rv.zip es')).Perm
+        ((ts.zip (rvs.zip es)).filter (fun x => x.1.elim false finT && x.2.1.elim false finV && x.2.2.elim false finV)) ∧
+      ∀ x ∈ d.t.zip (d.rv.zip es'), x.1.isSome = true ∧ x.2.1.isSome = true ∧ x.2.2.isSome = true := by
+  obtain ⟨es', hu, hp⟩ := kept_are_finite_inputs (fun o => o.elim false finT) (fun o => o.elim false finV) le ts rvs es uRv uErr
+    true tref perm d h
+  simp only [if_true] at hp
+  refine ⟨es', hu, hp, ?_⟩
+  intro x hx
+  have hm := (hp.mem_iff).mp hx
+  rw [List.mem_filter] at hm
+  obtain ⟨_, hf⟩ := hm
+  simp only [Bool.and_eq_true] at hf
+  obtain ⟨⟨h1, h2⟩, h3⟩ := hf
+  refine ⟨?_, ?_, ?_⟩
+  · cases hx1 : x.1 with
+    | none => rw [hx1] at h1; simp at h1
+    | some _ => rfl
+  · cases hx2 : x.2.1 with
+    | none => rw [hx2] at h2; simp at h2
+    | some _ => rfl
+  · cases hx3 : x.2.2 with
+    | none => rw [hx3] at h3; simp at h3
+    | some _ => rfl
+
 /-- covariance input: the positions kept are a permutation (no repeats, none missing) of the positions whose
 time, velocity and covariance column are finite (all positions when `clean = false`) -/
 theorem kept_are_finite_inputs_cov (ts : List τ) (rvs : List ν) (c : Cov ν) (uRv uErr : υ) (clean : Bool)
